@@ -213,6 +213,8 @@ def run_C14(case):
 
     if case.get("big_store"):
         return run_big_store(case)
+    if case.get("failed_request"):
+        return run_after_failed_request(case)
     if case.get("query_after_close"):
         # the caller keeps using the object after close(): queries may fail, they may not write
         def final_closed(ctx):
@@ -388,5 +390,98 @@ def run_big_store(case):
         h.update(repr((blocks, sorted(res.stats.items()))).encode())
     finally:
         sut.close()
+    res.digest = h.hexdigest()
+    return res
+
+
+def run_after_failed_request(case):
+    """A write of some request is refused by the operating system (ENOSPC / EIO; an append may
+    have reached the file in part) and the caller, having seen the error, goes on *reading* from
+    the same object.  The reads may fail; they may not write."""
+    import errno
+    import hashlib
+    import random
+
+    from . import ops as O
+    from .engine import Ctx, Result, Violation, Foreign
+    from .model import Model
+    from .simdisk import SimDisk, SEAM
+    from .twins import _rules
+
+    res = Result()
+    h = hashlib.sha256()
+    cfg = case["config"]
+    spec = case["failed_request"]
+    default, rules = _rules(cfg)
+    rng = random.Random(case.get("obs_seed", 0))
+    # a first pass to learn how many write events the history issues
+    model = Model(default, rules)
+    disk = SimDisk()
+    SEAM.install()
+    SEAM.use(disk)
+    sut = O.Sut("sim", default, rules, disk=disk)
+    base = len(disk.log)
+    try:
+        for op in case["ops"]:
+            refs = O.resolve_refs(op, model)
+            if refs is None:
+                continue
+            ob = O.exec_sut(sut, op, refs, model)
+            O.exec_model(model, op, refs, ob)
+    except Exception as e:
+        res.foreign = ("op_exception", "%s: %s" % (type(e).__name__, e))
+        res.digest = h.hexdigest()
+        sut.close()
+        return res
+    total = len(disk.log) - base
+    sut.close()
+    if total < 1:
+        res.digest = h.hexdigest()
+        return res
+    k = 1 + int(spec["frac"] * total) % total
+    model = Model(default, rules)
+    disk = SimDisk()
+    SEAM.use(disk)
+    sut = O.Sut("sim", default, rules, disk=disk)
+    disk.arm_error(k, spec["errno"], torn=spec.get("torn", 0))
+    failed = False
+    try:
+        try:
+            for op in case["ops"]:
+                refs = O.resolve_refs(op, model)
+                if refs is None:
+                    continue
+                try:
+                    ob = O.exec_sut(sut, op, refs, model)
+                except OSError as e:
+                    if "injected" not in str(e):
+                        raise
+                    failed = True
+                    break
+                O.exec_model(model, op, refs, ob)
+            if failed:
+                ctx = Ctx.__new__(Ctx)
+                ctx.case, ctx.prop, ctx.cfg, ctx.res = case, "C14", cfg, res
+                ctx.h = h
+                ctx.model = model
+                ctx.sut = sut
+                ctx.disk = disk
+                ctx.backend = "sim"
+                ctx.obs_rng = random.Random(case.get("obs_seed", 0))
+                ctx.op_index = -1
+                ctx.log_mark = len(disk.log)
+                res.stats["states_after_a_refused_write"] += 1
+                res.probes["queried_after_refused_%s" % (disk.error_event[1] if getattr(disk, "error_event", None) else "write")] += 1
+                sweep_C14(ctx)
+                res.nontrivial = True
+        except Violation as v:
+            res.violation = (v.clause, "after write event %d/%d was refused with errno %d (%d bytes of it written), same object: %s" % (k, total, spec["errno"], spec.get("torn", 0), v.detail))
+        except Foreign as f:
+            res.foreign = (f.clause, f.detail)
+    finally:
+        try:
+            sut.close()
+        except Exception:
+            pass
     res.digest = h.hexdigest()
     return res
